@@ -1820,3 +1820,145 @@ Proof.
 Qed.
 
 End Layers.
+
+(* ------------------------------------------------------------------------------------------ *)
+(* Part G: Token::parse_request, Token::run, the theorem                                        *)
+(* ------------------------------------------------------------------------------------------ *)
+Section Loop.
+Variable norm : bytes -> bytes.
+Variable maxc : N.
+
+(* between requests: every read happens after the whole output of the parse call just made has been written, and
+   that call has consumed every complete record it held *)
+Lemma parse_request_ps : forall fuel p new w, parser_ok p -> bytes_ok new -> len new <= input_space p -> PS p w new ->
+  match parse_request norm maxc fuel p new w with
+  | Ok (inl s0) w' => forall wr lk ab, HS (mkR s0 wr lk ab) w'
+  | Ok (inr _) _ => True
+  | Halt o _ => o <> ODeadlock
+  end.
+Proof.
+  induction fuel as [|f IH]; intros p new w Hp Hn Hl (Hrem & Hnf & HQ); [cbn [parse_request]; discriminate|].
+  rewrite parse_request_iter.
+  destruct (parse_facts norm maxc p new Hp Hn Hl) as (p' & d & o & EP & Hp' & Hd & _). rewrite EP.
+  pose proof (await_write_all_spec (io_fuel w (len o)) true o w) as WS1.
+  destruct (await_write_all (io_fuel w (len o)) true o w) as [[k|] w1|o1 w1]; [exact I| |].
+  2:{ destruct o1; try contradiction; discriminate. }
+  destruct WS1 as (Hsame & Hlog & Hsuf & _). unfold wlog_ext in Hlog.
+  assert (Hrem1 : bytes_ok (remaining w1)) by (rewrite (same_but_io_remaining _ _ Hsame); exact Hrem).
+  assert (Hnf1 : no_fault (wscript w1)) by (apply (no_fault_suffix _ _ Hsuf Hnf)).
+  assert (Hsegs : segs w1 = segs w) by apply Hsame.
+  assert (STEP : is_fatal (st p') = false ->
+            Q (sk (st p')) (sprem (st p')) (spad (st p')) (held p') [] (wlog w1) [] (segs w1) /\
+            (d = false -> fst (WS (st p') (held p')) = 0)).
+  { intros Hnfat. destruct (parse_law norm maxc p new p' d o Hp Hn Hl EP Hnfat) as (Wo & L & S).
+    split; [|exact S]. rewrite Hlog, Hsegs.
+    pose proof (Q_parse (sk (st p)) (sprem (st p)) (spad (st p)) (held p) [] (wlog w) new (segs w)
+                  (sk (st p')) (sprem (st p')) (spad (st p')) (held p') o Wo L HQ) as H1. cbn [app] in H1.
+    apply (Q_flush _ _ _ _ o _ _ _ o []); [symmetry; apply app_nil_r|exact H1]. }
+  destruct d.
+  - destruct (into_stream_parser p') as [s0|e] eqn:EI; [|exact I].
+    pose proof EI as EI'. unfold into_stream_parser in EI'.
+    destruct (st p') as [| | | | | | |rq|e] eqn:Est; try discriminate EI'.
+    destruct (STEP eq_refl) as [Q1 _]. cbn [sk sprem spad] in Q1.
+    destruct Hp' as (_ & _ & Hh & Hc & _).
+    destruct (into_stream_parser_init p' rq Est Hc) as (p0 & E0 & R0 & A0). rewrite EI in E0. injection E0 as <-.
+    intros wr lk ab. apply HS_mk.
+    + apply (into_stream_parser_pinv p' rq s0 Est Hc Hh EI).
+    + exact Hrem1.
+    + exact Hnf1.
+    + unfold SQ. rewrite A0. cbn [a_st a_prem a_pad a_raw a_out kst]. exact Q1.
+    + pose proof (Q_world _ _ _ _ _ _ _ _ Q1) as H. rewrite app_nil_r in H. exact H.
+    + pose proof (f_equal a_out A0) as Eo. cbn [abs a_out] in Eo. rewrite Eo. apply wholeF_nil.
+  - assert (Hnfat : is_fatal (st p') = false) by (destruct (st p'); try reflexivity; discriminate Hd).
+    destruct (STEP Hnfat) as [Q1 S1]. specialize (S1 eq_refl).
+    assert (GATE : forall E ge gm bb rest, flat E = [] -> segs w1 = E ++ (ge, gm, bb) :: rest -> bb <> [] ->
+              gate_met (counts (wlog w1)) ge gm).
+    { intros E ge gm bb rest HF HS Hbb. rewrite HS in Q1. apply (Q_block _ _ _ _ _ E ge gm bb rest HF Hbb S1 Q1). }
+    pose proof (await_read_inv _ _ _ _ _ (io_fuel w1 0) true (input_space p') w1 Q1 GATE) as AR.
+    pose proof (await_read_rem (io_fuel w1 0) true (input_space p') w1) as RM.
+    destruct (await_read (io_fuel w1 0) true (input_space p') w1) as [[b|k] w2|o2 w2]; [|exact I|exact AR].
+    destruct b as [|x b]; [exact I|]. destruct RM as (R1 & R2 & R3 & R4 & _).
+    rewrite R3 in Hrem1. apply bytes_ok_app in Hrem1.
+    apply IH; [exact Hp'|apply Hrem1|exact R4|]. split; [apply Hrem1|]. split; [rewrite R2; exact Hnf1|exact AR].
+Qed.
+
+Lemma fold_ev_fields (env : list (bytes * bytes)) : forall w,
+  remaining (fold_left (fun w p => w_ev (w_ev w (fst p)) (snd p)) env w) = remaining w /\
+  wscript (fold_left (fun w p => w_ev (w_ev w (fst p)) (snd p)) env w) = wscript w /\
+  wlog (fold_left (fun w p => w_ev (w_ev w (fst p)) (snd p)) env w) = wlog w /\
+  segs (fold_left (fun w p => w_ev (w_ev w (fst p)) (snd p)) env w) = segs w.
+Proof.
+  induction env as [|e t IH]; intros w; [repeat split|]. cbn [fold_left].
+  destruct (IH (w_ev (w_ev w (fst e)) (snd e))) as (H1 & H2 & H3 & H4). repeat split; assumption.
+Qed.
+
+(* Token::run never ends in the wait-for cycle *)
+Lemma run_loop_nd scripts : scripts_ok true scripts ->
+  forall fuel p served w, parser_ok p -> world_ok w -> PS p w [] ->
+  fst (run_loop norm maxc fuel p scripts served w) <> ODeadlock.
+Proof.
+  intros Hscripts. induction fuel as [|f IH]; intros p served w Hp Wok HPS; [cbn [run_loop fst]; discriminate|].
+  cbn [run_loop]. destruct (stopped w); [cbn [fst]; discriminate|].
+  pose proof (parse_request_ok norm maxc (io_fuel w 0) p [] w Hp Wok ltac:(apply Forall_nil) ltac:(rewrite len_nil; lia)
+                ltac:(rewrite io_fuel_eq; lia)) as PR.
+  pose proof (parse_request_ps (io_fuel w 0) p [] w Hp ltac:(constructor) ltac:(rewrite len_nil; lia) HPS) as PN.
+  unfold preq_post in PR.
+  destruct (parse_request norm maxc (io_fuel w 0) p [] w) as [[s0|k] w1|o w1]; [|cbn [fst]; discriminate|cbn [fst]; exact PN].
+  destruct PR as (G0 & S1 & B0 & St0 & _).
+  set (role := r_role (sreq s0)) in *.
+  set (r0 := mkR s0 (len (role_input_streams role) <=? 1) false false).
+  assert (GR0 : rgood r0).
+  { split; [exact G0|]. unfold wr_inv. subst r0. cbn [rsp rwriteable]. fold role. rewrite St0. apply wr_inv_init. }
+  set (w2 := fold_left _ _ _).
+  assert (S2 : wstep w1 w2).
+  { subst w2. eapply wstep_trans; [|apply wstep_fold_ev]. eapply wstep_trans; apply wstep_ev. }
+  assert (HS2 : HS r0 w2).
+  { subst w2. match goal with |- HS _ (fold_left _ ?env ?w) => destruct (fold_ev_fields env w) as (F1 & F2 & F3 & F4) end.
+    apply (HS_world r0 w1); [rewrite F1; reflexivity|rewrite F2; reflexivity|rewrite F3; reflexivity|rewrite F4; reflexivity|].
+    apply PN. }
+  set (script := nth served scripts (last scripts [])).
+  assert (Hscript : script_ok true role (next_input_stream role None) script).
+  { subst script. apply (Forall_nth_default (fun s => forall role, script_ok true role (next_input_stream role None) s));
+      [exact Hscripts|]. apply Forall_last; [exact Hscripts|]. intros role'. constructor. }
+  pose proof (run_handler_ok norm maxc true role _ script Hscript (length script + 2) r0 w2 ltac:(lia) GR0
+                (ws_ok _ _ S2 (ws_ok _ _ S1 Wok)) eq_refl St0) as RH.
+  pose proof (run_handler_hs maxc true role _ script Hscript (length script + 2) r0 w2 HS2) as RN.
+  unfold hpost in RH.
+  destruct (run_handler maxc (length script + 2) script r0 w2) as [[st r1] w3|o w3]; [|cbn [fst]; exact RN].
+  destruct RH as ((G1 & S3 & _) & Hst).
+  assert (Wok3 : world_ok w3) by (apply (ws_ok _ _ S3), (ws_ok _ _ S2), (ws_ok _ _ S1), Wok).
+  assert (CLOSE : forall d c, In d EXITSTATUS_VALUES ->
+    fst (match do_close maxc r1 d c w3 with
+         | Halt o w4 => (o, w4)
+         | Ok (inl rp) w4 => run_loop norm maxc f rp scripts (S served) w4
+         | Ok (inr _) w4 => (ORet, w4)
+         end) <> ODeadlock).
+  { intros d c Hd. pose proof (do_close_ok norm maxc r1 d c w3 G1 Wok3 Hd) as DC.
+    pose proof (do_close_hs maxc r1 d c w3 RN) as DN. unfold close_post in DC.
+    destruct (do_close maxc r1 d c w3) as [[rp|k] w4|o w4].
+    - destruct DC as (C1 & C2 & C3 & C4). apply IH; [exact C1|apply (ws_ok _ _ C3 Wok3)|exact DN].
+    - cbn [fst]. discriminate.
+    - cbn [fst]. exact DN. }
+  destruct st as [[d c]|k].
+  - apply CLOSE. exact Hst.
+  - destruct ((k =? EK_Aborted) && raborted r1); [apply CLOSE; apply exit_complete_in|cbn [fst]; discriminate].
+Qed.
+End Loop.
+
+Lemma peer_segs_world : forall sg n, peer_segs n sg -> Forall (fun s : N * N * bytes => bytes_ok (snd s)) (enc_segs sg).
+Proof.
+  induction sg as [|[[ge gm] rs] t IH]; intros n H; [constructor|]. cbn [peer_segs] in H. destruct H as (_ & _ & Hrs & H).
+  cbn [enc_segs map]. constructor; [|apply (IH _ H)]. cbn [snd]. apply whole_bytes_ok. exists rs. split; [exact Hrs|reflexivity].
+Qed.
+
+Theorem peer_never_deadlocks : peer_never_deadlocks_stmt.
+Proof.
+  intros norm maxc scripts B sg w0 HB Hs Hsegs Hpeer Hlog Hnf _ _ _ _.
+  assert (Wok : world_ok w0) by (unfold world_ok; rewrite Hsegs; apply (peer_segs_world sg 0 Hpeer)).
+  destruct (run_loop_total norm maxc scripts B w0 Wok Hs HB) as (w & [E|[E _]]); [rewrite E; reflexivity|].
+  exfalso. apply (run_loop_nd norm maxc scripts Hs (nb w0 + 4) (new_parser B) 0%nat w0 (new_parser_ok B HB) Wok);
+    [|rewrite E; reflexivity].
+  split; [apply world_ok_remaining; exact Wok|]. split; [exact Hnf|].
+  rewrite Hlog, Hsegs. cbn [new_parser st held sk sprem spad]. apply Q_init. exact Hpeer.
+Qed.
+Print Assumptions peer_never_deadlocks.
